@@ -284,6 +284,11 @@ func (s *Session) Read(b []byte) (n int, err error) {
 			verifPoint(1)
 			select {
 			case <-s.closedChan:
+				// The last segments may have been queued right before the
+				// session was closed. Drain them before reporting EOF.
+				if s.recvQueue.Len() > 0 {
+					continue
+				}
 				return 0, io.EOF
 			case <-s.inputErr:
 				return 0, io.ErrUnexpectedEOF
